@@ -58,6 +58,7 @@ fn main() {
         ("drive", "rtrsession") => rtrsession::drive(rest),
         ("replay", "rtrconn") => rtrconn::replay(rest),
         ("replay", "rtrclient") => rtrclient::replay(rest),
+        ("drive", "rtrclient") => rtrclient::drive(rest),
         ("replay", "rtrwire") => rtrwire::replay(rest),
         ("replay", "rrdp") => rrdp::replay(rest),
         ("replay", "manifest") => manifest::replay(rest),
